@@ -16,6 +16,7 @@ import (
 	"verif/harness/docs"
 	"verif/harness/gen"
 	"verif/harness/goast"
+	"verif/harness/jv"
 	"verif/harness/model"
 	"verif/harness/sgen"
 )
@@ -214,3 +215,131 @@ var _ = fmt.Sprintf
 
 func jsonMarshal(v any) ([]byte, error)   { return json.Marshal(v) }
 func jsonUnmarshal(b []byte, v any) error { return json.Unmarshal(b, v) }
+
+// addOptionalDefaults gives optional properties (never required ones) of every
+// object in the file a default that satisfies their own constraints, with
+// probability p: "absent or null optional values are never checked" has to
+// hold for a defaulted property too, whose zero value may violate the bound.
+func addOptionalDefaults(t *rapid.T, c *core.Ctx, f *model.File, p float64, o *docs.Opts) {
+	visit := func(x *model.Node) {
+		if x.Kind != model.KObject {
+			return
+		}
+		for _, pr := range x.Props {
+			n := pr.Node
+			if n.Default != nil || x.IsRequired(pr.Name) || n.Kind == model.KRef || !defaultAllowed(c, n) {
+				continue
+			}
+			if rapid.IntRange(0, 999).Draw(t, "optdefault") >= int(p*1000) {
+				continue
+			}
+			oo := *o
+			oo.NoNulls = true
+			v, ok := docs.Valid(t, n, &oo)
+			if !ok || !docs.Float64Exact(v) {
+				continue
+			}
+			n.Default = &v
+			c.Count("shape.optional_default." + n.Kind.String())
+		}
+	}
+	// not inside allOf/anyOf branches: whether the default of a branch the document did not
+	// select applies is not something the property (or JSON Schema) settles
+	var walk func(n *model.Node)
+	walk = func(n *model.Node) {
+		if n == nil || n.Kind == model.KAllOf || n.Kind == model.KAnyOf {
+			return
+		}
+		visit(n)
+		for _, pr := range n.Props {
+			walk(pr.Node)
+		}
+		if n.Additional != nil {
+			walk(n.Additional.Schema)
+		}
+		walk(n.Items)
+	}
+	walk(f.Root)
+	for _, d := range f.Defs {
+		walk(d.Node)
+	}
+}
+
+// collidingNameSets: definition names that map to one Go identifier.
+var collidingNameSets = [][]string{
+	{"zip-code", "zip_code", "ZipCode"},
+	{"Level", "level", "level_"},
+	{"a_b", "a.b", "A-B"},
+	{"route hops", "RouteHops", "route_hops"},
+}
+
+// addCollidingDefs adds 2-3 definitions whose names map to the same Go
+// identifier and whose schemas differ in nothing but the constraint family
+// under test (the third, when present, may repeat the second exactly). Each is
+// referenced from a required root property and one of them also as array
+// items: every reference must be checked by its own definition's rules.
+func addCollidingDefs(t *rapid.T, c *core.Ctx, f *model.File, family string) {
+	if f.Root.Kind != model.KObject {
+		return
+	}
+	ip := func(v int) *int { return &v }
+	fp := func(v float64) *float64 { return &v }
+	names := rapid.SampledFrom(collidingNameSets).Draw(t, "colnames")
+	names = rapid.Permutation(names).Draw(t, "colorder")
+	n := rapid.IntRange(2, 3).Draw(t, "coln")
+	variant := func(i int) *model.Node {
+		switch family {
+		case "string":
+			switch i {
+			case 0:
+				return &model.Node{Kind: model.KString, MinLength: ip(2), MaxLength: ip(4)}
+			case 1:
+				return &model.Node{Kind: model.KString, MinLength: ip(5), MaxLength: ip(7)}
+			}
+			return &model.Node{Kind: model.KString, MinLength: ip(2), MaxLength: ip(4), Pattern: "^[a-z]+$"}
+		case "numeric":
+			switch i {
+			case 0:
+				return &model.Node{Kind: model.KInteger, Minimum: fp(0), Maximum: fp(10)}
+			case 1:
+				return &model.Node{Kind: model.KInteger, Minimum: fp(20), Maximum: fp(30)}
+			}
+			return &model.Node{Kind: model.KInteger, Minimum: fp(0), Maximum: fp(10), MultipleOf: fp(5)}
+		case "array":
+			lim := [][2]int{{1, 2}, {3, 4}, {0, 1}}[i]
+			return &model.Node{Kind: model.KObject, Props: []model.Prop{
+				{Name: "nodes", Node: &model.Node{Kind: model.KArray, Items: &model.Node{Kind: model.KString}, MinItems: ip(lim[0]), MaxItems: ip(lim[1])}},
+			}, Required: []string{"nodes"}}
+		case "enum":
+			vals := [][]string{{"low", "high"}, {"debug", "info", "warn"}, {"x", "y"}}[i]
+			e := &model.Node{Kind: model.KEnum, EnumType: "string"}
+			for _, v := range vals {
+				e.EnumVals = append(e.EnumVals, jv.StrV(v))
+			}
+			return e
+		default: // required
+			req := [][]string{{"a"}, {"a", "b"}, {"b", "c"}}[i]
+			return &model.Node{Kind: model.KObject, Props: []model.Prop{
+				{Name: "a", Node: &model.Node{Kind: model.KString}}, {Name: "b", Node: &model.Node{Kind: model.KInteger}}, {Name: "c", Node: &model.Node{Kind: model.KBoolean}},
+			}, Required: req}
+		}
+	}
+	third := rapid.SampledFrom([]int{1, 1, 2}).Draw(t, "colthird") // the third usually repeats the second
+	for i := 0; i < n; i++ {
+		vi := i
+		if i == 2 {
+			vi = third
+		}
+		def := variant(vi)
+		f.Defs = append(f.Defs, model.Def{Name: names[i], Node: def})
+		ref := func() *model.Node { return &model.Node{Kind: model.KRef, Ref: "#/$defs/" + names[i], Target: def} }
+		pn := fmt.Sprintf("zcol%d", i)
+		f.Root.Props = append(f.Root.Props, model.Prop{Name: pn, Node: ref()})
+		f.Root.Required = append(f.Root.Required, pn)
+		if i == n-1 {
+			f.Root.Props = append(f.Root.Props, model.Prop{Name: "zcolitems", Node: &model.Node{Kind: model.KArray, Items: ref(), MinItems: ip(1)}})
+			f.Root.Required = append(f.Root.Required, "zcolitems")
+		}
+	}
+	c.Count(fmt.Sprintf("shape.colliding_defs.%s.%d", family, n))
+}
